@@ -634,6 +634,32 @@ def stale_tick_history(rng):
     return g.ops
 
 
+def reconnect_limits_history(rng):
+    """C05: what the daemon advertises at connect depends on the agent's settings only - also at the second and third
+    connect of an application whose earlier runs had faster event harvests (report periods other than 60 s)"""
+    g = Gen(rng, napps=1, profile="allok", timeout=0)
+    g.ops.append("proc defapp k1 lic=LIC1 name=app1 redirect=- lang=php ver=1.1 host=h1 dt=0 span=%d log=%d custom=%d docker=-" % (
+        rng.choice([10000, 500, 7]), rng.choice([10000, 100, 60, 6, 3]), rng.choice([30000, 1000, 9])))
+    g.apps.append("k1")
+    g.ops.append("proc app k1 run=-")
+    for e in range(rng.randint(2, 3)):
+        g.nrun += 1
+        run = "r%d%s" % (g.nrun, "qwzjkvbxyp"[g.nrun % 10] * 3)
+        g.ops.append("proc reply k1 preconnect 0 200 host=coll-k1.example")
+        g.ops.append("proc reply k1 connect 0 200 run=%s rp=%s ee=- ae=- ce=- se=- le=%s srp=%s sl=- rules=- hdr=-" % (
+            run, rng.choice(["5000", "5000", "30000", "1000", "60000", "-"]), rng.choice(["-", "833", "20000"]), rng.choice(["-", "5000", "60000"])))
+        for _ in range(rng.randint(1, 3)):
+            g.txn(run)
+        g.ops.append("proc trigger %s %d" % (run, DEFAULT))
+        g.ops.append("proc advance 31")
+        g.ops.append("proc reply %s metric_data 0 %s" % (run, rng.choice(["409", "401"])))     # restart: reconnects at once
+        g.ops.append("proc state")
+    g.ops.append("proc reply k1 preconnect 0 200 host=coll-k1.example")
+    g.ops.append("proc state")
+    g.ops.append("proc cleanexit default=200")
+    return g.ops
+
+
 def rule_change_history(rng):
     """C07: the rename rules are those of the run's own connect reply.  An application connects with one rule list, reports
     metrics, is restarted by the collector at a harvest (409) and reconnects with another rule list (or none); possibly again"""
@@ -757,5 +783,5 @@ def _wireify(fn):
 
 
 for _n in ["history", "retry_history", "lifecycle_history", "malformed_history", "capacity_history", "zero_limit_history",
-           "package_history", "rule_change_history", "overlap_history", "stale_tick_history"]:
+           "package_history", "rule_change_history", "overlap_history", "stale_tick_history", "reconnect_limits_history"]:
     globals()[_n] = _wireify(globals()[_n])
